@@ -842,6 +842,11 @@ class VectorStarSet(object):
                             Nvect = 0
                             continue
                         if (abs(g00 - 1) > threshold) or (abs(g11 - 1) > threshold):
+                            if g00 * g11 - g01 * g10 > 0:
+                                # symmetric, proper and not the identity: a two-fold rotation about vpara (-1 in the
+                                # perpendicular plane), which leaves no perpendicular vector invariant
+                                Nvect = 0
+                                continue
                             # if we don't have the identify matrix, then we have to find the one vector that survives
                             if abs(g00 - 1) < threshold:
                                 Nvect = 1
